@@ -256,9 +256,11 @@ pub struct Watchdog {
 
 impl Watchdog {
     pub fn start(prop: &'static str, tier: Tier) -> Arc<Self> {
+        // C10 and C13 cases enumerate / repeat whole command runs: one case is long by design
+        let long = matches!(prop, "C10" | "C13");
         let limit = match tier {
-            Tier::Quick => Duration::from_secs(180),
-            Tier::Thorough => Duration::from_secs(900),
+            Tier::Quick => Duration::from_secs(if long { 600 } else { 180 }),
+            Tier::Thorough => Duration::from_secs(if long { 3600 } else { 900 }),
         };
         let w = Arc::new(Self {
             slots: Mutex::new(BTreeMap::new()),
@@ -424,7 +426,8 @@ where
                 .arg(mine.join(","))
                 .env(
                     "RAYON_NUM_THREADS",
-                    std::env::var("RAYON_NUM_THREADS").unwrap_or_else(|_| "4".into()),
+                    std::env::var("RAYON_NUM_THREADS")
+                        .unwrap_or_else(|_| "4".into()),
                 )
                 .stdin(std::process::Stdio::null())
                 .stdout(std::process::Stdio::piped())
